@@ -385,6 +385,7 @@ func runProp(id, tier string) int {
 	if tier == "thorough" {
 		cov["mutation_selfcheck"] = runMutants(p)
 		cov["goos_variants"] = runGOOSVariants(p)
+		cov["callgraph_crosscheck_vta"] = vtaCrossCheck(c)
 	}
 	ev := evidence{PropertyID: id, Tier: tier, Seed: seedEnv(), Level: p.Level, Coverage: cov,
 		Assumptions: append([]string{"the deciding step is static: nothing from /repo is executed", "test files are not loaded: a test-only call site neither discharges nor violates an obligation"}, p.Assume...),
